@@ -85,9 +85,6 @@ def strip_comments(text):
     return re.sub(rb"/\*.*?\*/|//[^\n\r]*", b" ", text, flags=re.S)
 
 
-CLASS_SIDBIG = "text-sid-beyond-int64-read-as-text-symbol"
-
-
 def classify_text(text):
     """heuristic attribution of an accepted malformed text to a known class, most specific trigger first"""
     try:
@@ -112,9 +109,6 @@ def classify_text(text):
         return CLASS_DOT
     if b"/*/" in text:
         return CLASS_CMT
-    for m in re.finditer(rb"(^|[\s\[\](){},:])\$([0-9]{19,})(?![A-Za-z0-9_$])", strip_comments(text)):
-        if int(m.group(2)) > (1 << 63) - 1:
-            return CLASS_SIDBIG
     return None
 
 
